@@ -20,6 +20,7 @@ import DateutilVerif.Proofs.RRuleStrFold
 import DateutilVerif.Proofs.RRuleStrTzid
 import DateutilVerif.Proofs.RRuleStrDate
 import DateutilVerif.Proofs.RRuleStrGenStr
+import DateutilVerif.Proofs.RRuleStrGenRule
 
 namespace C13
 open RRuleStr
@@ -580,5 +581,32 @@ theorem str_roundtrip_source (x : StrIn) (hx : Printable x) (t : Nat × Nat × N
 
 example : Gen.rruleStr sample = toStr sample := gen_str_eq_model sample (by
   constructor <;> first | decide | (intro l h; cases h; decide))
+
+/-! ## 14. the part parser as written: `_parse_rfc_rrule` and the `_handle_*` dispatch translated from source -/
+
+/-- `getattr(self, "_handle_" + name)(…)` resolved against the class body as written — `_handle_int` (INTERVAL, COUNT),
+    `_handle_int_list` (the nine integer BY parts), `_handle_FREQ` / `_handle_WKST` with the dumped `_freq_map` / `_weekday_map`,
+    `_handle_UNTIL` (text and options kept for `parser.parse`), BYWEEKDAY = BYDAY — equals the model's `handleU`, for every name and
+    value.  (`_handle_BYWEEKDAY`'s item splitter is still the hand model `parseWDay`: not translated.) -/
+theorem gen_handle_eq_model (name value : List Char) : Gen.rrsHandle po name value = handleU po name value :=
+  gen_handle_eq po name value
+
+/-- **the WHOLE method `_parse_rfc_rrule` as translated from source** (optional `RRULE:` head, the loop over the `;` parts with
+    `split('=')`, upper-casing, the handler call and the `try` statement's exception mapping, the FREQ check) **equals the model's
+    `ruleOf`**: the keyword arguments handed to `rrule()`, or ValueError — for every line and all options.  The `try` statement maps
+    only AttributeError / KeyError / ValueError to ValueError; that this is "every failure" is `handleU_errIn`. -/
+theorem gen_parse_rfc_rrule_eq_model (line : List Char) : Gen.rrsParseRule po line = ruleOf po line := gen_parseRule_eq po line
+
+/-- the text round trip through the two translated methods: `_parse_rfc_rrule(RRULE line of __str__)` gives the printed arguments -/
+theorem str_roundtrip_line_source (x : StrIn) (hx : Printable x) :
+    Gen.rrsParseRule po (rruleLineOf x) = .ok (argsOf po x) := by
+  rw [gen_parse_rfc_rrule_eq_model]
+  unfold ruleOf
+  rw [str_roundtrip_line x hx]
+  rfl
+
+example : Gen.rrsParseRule {} (lit "RRULE:FREQ=WEEKLY;COUNT=3;BYDAY=+1MO,TU") =
+    .ok { freq := some 2, count := some 3, byweekday := some [(0, some 1), (1, none)] } := by decide
+example : Gen.rrsParseRule {} (lit "FREQ=DAILY;FOO=1") = .error .ValueError := by decide
 
 end C13
